@@ -8,7 +8,7 @@ import units
 from units import PASS, VIOLATION, INCONCLUSIVE, VERIF, BUILD
 
 _cache = {}
-HOOK_COMMITS = ['6430406', '13ec4a7']
+HOOK_COMMITS = ['6c4b112', '6430406', '13ec4a7']
 
 SHAPES_Q = '0:1,1:1,2:2,3:1,4:4,8:8,12:4,0:4'
 SHAPES_T = '0:1,1:1,2:2,3:1,4:4,8:8,12:4,0:4,16:16,24:8,2:1,0:8'
@@ -220,11 +220,11 @@ K_C08 = dict(RT, name='kani-convert-c08', harnesses=['c08_'], bounded=RT_BOUND, 
              functions=['truc_runtime/src/convert.rs try_convert_vec_in_place', 'truc_runtime/src/convert.rs convert_vec_in_place'])
 K_C09 = dict(RT, name='kani-convert-c09', harnesses=['c09_'], bounded=RT_BOUND, min_harnesses=6,
              functions=['truc_runtime/src/convert.rs try_convert_vec_in_place (error-return arm, cleanup closure)'])
-K_C10 = dict(RT, name='kani-convert-c10', harnesses=['c10_'], flags=[], min_harnesses=8,
+K_C10 = dict(RT, name='kani-convert-c10', harnesses=['c10_'], flags=[], min_harnesses=13,
              expect={'c10_size': {'must_fail_only': ['size_of {} vs {}'], 'covers_sat': 0},
                      'c10_zst_': {'must_fail_only': ['size_of {} vs {}'], 'covers_sat': 0},
                      'c10_align': {'must_fail_only': ['align_of {} vs {}'], 'covers_sat': 0}},
-             bounded='BOUNDED in the type matrix only (8 pairs); per pair complete: the refusal precedes every loop',
+             bounded='BOUNDED in the type matrix only (8 pairs, vector lengths 0 and 2 as separate harnesses); per pair complete: the refusal precedes every loop',
              functions=['truc_runtime/src/convert.rs try_convert_vec_in_place (the two layout assertions)'])
 K_DATA = dict(RT, name='kani-data-primitives', harnesses=['data::'], flags=[], min_harnesses=6,
               expect={'probe_': {'probe': True}, 'control_oob': {'must_fail_with': 'pointer outside object bounds'}},
@@ -255,7 +255,7 @@ PROPERTIES['C10'] = {
     'units': lambda tier: [K_C10],
     'explanation': 'Per mismatching type pair the harness must fail with exactly the size (or alignment) assertion of the real function and '
                    'the cover inside the converter must be unsatisfiable; matching pairs are the C08 harnesses (assertions pass, covers reachable).',
-    'unchecked': ['"dropped normally after the panic" is argued from the refusal preceding ManuallyDrop::new, not executed (no unwinding in Kani)'],
+    'unchecked': ['"dropped normally after the panic": Kani stops at the panic; what is checked is that the point where the vector is taken out of the drop machinery (ManuallyDrop::new, marked by a cfg(kani) cover) is unreachable before the refusal'],
 }
 
 V_BUILDER = {'kind': 'verus', 'unit': 'builder', 'cex': 'bx-builder'}
